@@ -74,6 +74,48 @@ def run_sharded(ctx, cmd, cases, shards, extra_args=None, timeout=1700, tag=""):
     return traces, results
 
 
+def run_sharded_many(ctx, cmd, jobs, timeout=1700):
+    """Several run_sharded jobs side by side (each job = dict(cases, shards, extra_args, tag), its own driver processes):
+    all shards of all jobs are started at once.  Returns one (traces, results) per job, in order."""
+    binary = vlib.go_build(cmd)
+    env = vlib.go_env()
+    env.update(VERIF_SEED=str(ctx.seed), VERIF_TIER=ctx.tier)
+    started = []
+    for job in jobs:
+        tag = job.get("tag", "")
+        cpath = os.path.join(ctx.tmp, cmd + tag + "_picked.jsonl")
+        with open(cpath, "w") as fh:
+            for c in job["cases"]:
+                fh.write(json.dumps(c) + "\n")
+        procs = []
+        for s in range(job["shards"]):
+            t = os.path.join(ctx.tmp, "%s%s_trace_%d.ndjson" % (cmd, tag, s))
+            r = os.path.join(ctx.tmp, "%s%s_res_%d.jsonl" % (cmd, tag, s))
+            lg = open(os.path.join(ctx.tmp, "%s%s_drv_%d.log" % (cmd, tag, s)), "w")
+            argv = ["timeout", "-k", "10", str(timeout), binary, "-cases", cpath, "-trace", t, "-results", r,
+                    "-shard", str(s), "-shards", str(job["shards"])] + list(job.get("extra_args") or [])
+            procs.append((subprocess.Popen(argv, stdout=lg, stderr=subprocess.STDOUT, env=env, cwd=ctx.tmp), argv, t, r, lg))
+        started.append(procs)
+    out = []
+    for procs in started:
+        traces, results = [], []
+        for s, (p, argv, t, r, lg) in enumerate(procs):
+            rc = p.wait()
+            lg.close()
+            for again in range(2):
+                if rc == 0:
+                    break
+                vlib.log("[driver] %s shard %d died rc=%s, restarting" % (cmd, s, rc))
+                with open(lg.name, "a") as lg2:
+                    rc = subprocess.run(argv, stdout=lg2, stderr=subprocess.STDOUT, env=env, cwd=ctx.tmp).returncode
+            if rc != 0:
+                raise vlib.Inconclusive("driver %s shard died rc=%s\n%s" % (cmd, rc, vlib.tail(lg.name)))
+            traces.append(t)
+            results += vlib.read_jsonl(r)
+        out.append((traces, results))
+    return out
+
+
 def mismatches(txt):
     out = {}
     for m in re.finditer(r'<<\s*"MISMATCH",\s*(\d+),\s*"([^"]+)"\s*>>', txt):
